@@ -3,6 +3,7 @@
     of the generated functions (Sem/RandSem.v), replayed on the calls to math/rand each real call made,
     rebuilds the very value the real function returned, which is well-formed. *)
 From Coq Require Import List String ZArith Bool Arith NArith.
+From GM Require Corr.AnaCross.
 From GM Require Import Base.Result Facts.GoFacts Facts.Ana Model.Enums Model.Fields Model.Classify Model.RandData Sem.GoJson Sem.GoVal Sem.RandSem.
 Import ListNotations.
 
@@ -31,7 +32,7 @@ Definition enum_kinds_agree (c : c15_case) : bool :=
 
 Definition chk (c : c15_case) : bool :=
   let nodes := ao_nodes (c15_ana c) in
-  enum_kinds_agree c &&
+  AnaCross.ana_cross (c15_prog c) (c15_ana c) && enum_kinds_agree c &&
   (* [returns] evaluated level by level (Properties/C15.v: C15_levels_compute_returns), under its two premises *)
   calls_closed nodes
   && forallb (fun tb => existsb (gty_eqb (fst tb)) (positions nodes)
